@@ -19,9 +19,9 @@ if [ $applies = yes ]; then
   tests=$(/verif/tools/baseline.sh $W | head -1 | grep -o '[0-9]*/56')
   cp "$DEMO" "$W/$DPATH"
   pkg=./$(dirname "$DPATH")
-  if go test -vet=off -count=1 -run 'Demo' $pkg >/tmp/sv-with.log 2>&1; then demo_with=pass; else demo_with=fail; fi
+  if go test -vet=off -count=1 -run 'Demo|ZZ' $pkg >/tmp/sv-with.log 2>&1; then demo_with=pass; else demo_with=fail; fi
   git checkout -q -- . 
-  if go test -vet=off -count=1 -run 'Demo' $pkg >/tmp/sv-without.log 2>&1; then demo_without=pass; else demo_without=fail; fi
+  if go test -vet=off -count=1 -run 'Demo|ZZ' $pkg >/tmp/sv-without.log 2>&1; then demo_without=pass; else demo_without=fail; fi
 fi
 cd /verif
 res=""
